@@ -133,7 +133,8 @@ func (c *Commit) String() string {
 	commitString += fmt.Sprintf("commit %s\n", c.Hash)
 	commitString += fmt.Sprintf("Author: %s <%s>\n", author, email)
 	commitString += fmt.Sprintf("Date: %s\n", c.Author.Timestamp)
-	commitString += fmt.Sprintf("\n\t%s\n", c.Message)
+	// every line of the message is indented, so that no line of it can be taken for a header line
+	commitString += fmt.Sprintf("\n\t%s\n", strings.ReplaceAll(c.Message, "\n", "\n\t"))
 
 	return commitString
 }
